@@ -24,7 +24,7 @@ else:
     meta["tests"] = tail
     meta["tests_pass"] = r.returncode == 0
     meta.setdefault("ran", []).append(f"cd <patched worktree> && PYTHONPATH=src /venv/bin/python -m pytest -q (whole suite minus the always-failing test_flory_schulz and the flaky test_schulz_zimm) -> {tail}")
-json.dump(meta, open(f"{d}/meta.json", "w"), indent=1)
+json.dump({"tests": meta["tests"], "tests_pass": meta["tests_pass"], "ran": [r_ for r_ in meta.get("ran", []) if "pytest" in r_][-1:]}, open(f"{d}/tests.json", "w"), indent=1)
 subprocess.run(["git", "-C", "/repo", "worktree", "remove", "--force", wt], capture_output=True)
 shutil.rmtree(wt, ignore_errors=True)
 print(name, meta["tests"])
